@@ -267,6 +267,29 @@ VCtorTable(ev) ==
   LET bad == {g \in 1..(ev.p - 1) : (ev.acc[g] = 1) # IG_ConstructorAccepts(NLit(ev.p), NLit(ev.q), NLit(g))}
   IN IF bad = {} THEN PGood ELSE PBad("C18: IntegerGroup constructor accepts/rejects g = " \o ToString(FirstBad(bad)), "")
 
+(* ---- C04: the table of start() messages of one (class, password) over every scalar ---- *)
+ParamTableP == [n \in DOMAIN PT.params |->
+                 LET r == PT.params[n]
+                     g == GroupTable[r.grp]
+                 IN [grp |-> g,
+                     M |-> GArbElem(g, HexToBytes(r.M)),
+                     N |-> GArbElem(g, HexToBytes(r.N)),
+                     S |-> GArbElem(g, HexToBytes(r.S))]]
+VMsgTable(ev) ==
+  LET ps  == ParamTableP[ev.ps]
+      g   == ps.grp
+      q   == NToInt(GOrder(g))
+      pw  == HexToBytes(ev.pw)
+      exp == [x \in 0..(q - 1) |-> <<SideByte(ev.cls)>> \o OutBytes(ev.cls, ps, pw, NLit(x))]
+      got == [x \in 0..(q - 1) |-> HexToBytes(ev.msgs[x + 1])]
+      bad == {x \in 0..(q - 1) : got[x] # exp[x]}
+      bodies == {Tail(got[x]) : x \in 0..(q - 1)}
+      subenc == {GEnc(g, GMul(g, GBase(g), NLit(k))) : k \in 0..(q - 1)}
+  IN IF Len(ev.msgs) # q THEN PBad("harness: table size", "")
+     ELSE IF bad # {} THEN PBad("C03/C04: start() message for scalar " \o ToString(FirstBad(bad)), BytesToHex(exp[FirstBad(bad)]))
+     ELSE IF bodies # subenc THEN PBad("C04: the messages over all scalars are not exactly the subgroup, each element once", "")
+     ELSE PGood
+
 PureVerdict(ev) ==
   CASE ev.op = "g_dec_table" -> VDecTable(ev)
     [] ev.op = "g_dec"       -> VDec(ev)
@@ -286,6 +309,7 @@ PureVerdict(ev) ==
     [] ev.op = "finalize_sym" -> VFinalizeSym(ev)
     [] ev.op = "params_sound" -> VParamsSound(ev)
     [] ev.op = "ctor_table"  -> VCtorTable(ev)
+    [] ev.op = "msg_table"   -> VMsgTable(ev)
     [] ev.op = "ed_tab"      -> VEdTab(ev)
     [] ev.op = "ed_op"       -> VEdOp(ev)
     [] OTHER                 -> PBad("harness: unknown event " \o ev.op, "")
